@@ -150,6 +150,191 @@ def add_selfcheck(rng, cfg, p_block=0.3):
     return cfg
 
 
+# ------------------------------------------------------------------ repeated texts around hidden turns
+#
+# Colang 1.0 keeps TWO views of the variables: the flows' context is rebuilt from the history the flows see (turns hidden by
+# `hide_prev_turn` removed), the actions' context (`compute_context(events)`: rail actions, `text=$bot_message` parameters,
+# `create event …(script=$bot_message)`) is accumulated from ALL ContextUpdate events.  They can only drift apart when a value
+# is *equal* to an older one somewhere ("unchanged, nothing to record") - so the interesting conversations are those in which a
+# turn faults AFTER the variable was set and texts REPEAT across turns (equal to the last visible one, to the hidden one, to an
+# earlier rejected one, to a rewrite).  Rails of both kinds read the variable: action rails (action side) and pure-Colang
+# rails (flow side, ids >= P.PURE_BASE).
+
+PURE = P.PURE_BASE
+
+
+def fix_pure(case):
+    """Pure-Colang rails compute their verdict from the text they see (`if "BLK<i>" in $var`): make the verdict tables say what
+    the texts dictate along the configured chain (entry "r" iff the marker occurs in the text the rail is shown)."""
+    for t in case["turns"]:
+        for key, lst, start in (("vin", case["in"], t["user"]), ("vout", case["out"], t["bot"])):
+            if not any(P.is_pure(r) for r in lst):
+                continue
+            tbl = {i: v for i, v in (t.get(key) or [])}
+            for r in lst:
+                if P.is_pure(r):
+                    tbl[r] = "a"
+            cur = start
+            for r in lst:
+                if P.is_pure(r):
+                    tbl[r] = "r" if P.pure_marker(r) in cur else "a"
+                v = tbl.get(r, "a")
+                if v in ("r", "f"):
+                    break
+                if case["ver"] == "1.0" and is_rewrite(v):
+                    cur = v[1]
+            t[key] = [[i, tbl[i]] for i in sorted(tbl)]
+    return case
+
+
+# one side of a conversation: [(text key, event)]; events:
+#   ok   every rail accepts            f0 / f1  the first / last ACTION rail of the side raises (the variable is already set)
+#   r    the last action rail rejects  w        the first action rail rewrites to a fresh text
+#   w=K  the first action rail rewrites to text K and the last action rail raises   m  the text carries the marker of the pure rail
+#   x    the OTHER stage faults later in the turn (in-side patterns: an output rail raises; the turn is hidden after `$user_message` was used)
+REPEAT_PATTERNS = [
+    [("A", "ok"), ("B", "f1"), ("A", "ok")],               # repeat of the last visible text after a hidden turn
+    [("A", "ok"), ("B", "f1"), ("B", "ok")],               # repeat of the hidden text
+    [("A", "r"), ("B", "f1"), ("A", "ok")],                # repeat of an earlier rejected text
+    [("A", "ok"), ("B", "f0"), ("A", "r")],                # ... which is now rejected
+    [("A", "ok"), ("A", "f1"), ("A", "ok")],               # the same text throughout
+    [("A", "ok"), ("B", "f1"), ("C", "f0"), ("A", "ok")],  # two hidden turns in a row
+    [("A", "ok"), ("B", "f1"), ("A", "ok"), ("B", "ok")],  # and the hidden text once more afterwards
+    [("A", "w"), ("B", "f1"), ("A", "ok")],                # 1.0: rewritten the first time, untouched the second time
+    [("A", "ok"), ("B", "w=A"), ("B", "ok")],              # 1.0: rewritten to the visible text, then a later rail raises
+    [("A", "ok"), ("Bm", "f0"), ("A", "ok")],              # the hidden text is one a pure-Colang rail always rejects
+    [("A", "ok"), ("B", "f1"), ("Am", "ok")],
+    [("A", "ok"), ("B", "x"), ("A", "ok")],
+    [("A", "w"), ("B", "x"), ("A", "w")],
+]
+
+
+def _repeat_side(rng, cfg, turns, side, pattern):
+    """Impose `pattern` on the `side` ("in": user texts / vin, "out": bot texts / vout) of the clean `turns`."""
+    key, tkey = ("vin", "user") if side == "in" else ("vout", "bot")
+    rails = cfg["in"] if side == "in" else cfg["out"]
+    action_rails = [r for r in rails if not P.is_pure(r)]
+    pure = [r for r in rails if P.is_pure(r)]
+    texts = {}
+    for k, (name, ev) in enumerate(pattern):
+        t = turns[k]
+        base = name.rstrip("m")
+        if base not in texts:
+            texts[base] = t[tkey]
+        txt = texts[base]
+        if name.endswith("m") and pure:
+            txt = txt + " " + P.pure_marker(pure[0])
+        if not (cfg["ver"] == "2.x" and side == "in"):  # 2.x user texts are dictated by the waiting flow
+            t[tkey] = txt
+        tbl = {i: "a" for i in sorted(set(rails))}
+        if action_rails:
+            first, last = action_rails[0], action_rails[-1]
+            if ev == "f0":
+                tbl[first] = "f"
+            elif ev == "f1":
+                tbl[last] = "f"
+            elif ev == "r":
+                tbl[last] = "r"
+            elif ev == "w" and cfg["ver"] == "1.0":
+                tbl[first] = ["w", rewrite_text(rng, side, k + 1)]
+            elif ev.startswith("w=") and cfg["ver"] == "1.0":
+                tbl[first] = ["w", texts.get(ev[2:], txt)]
+                if last != first:
+                    tbl[last] = "f"
+        if ev == "x":
+            other = "vout" if side == "in" else "vin"
+            orails = [r for r in (cfg["out"] if side == "in" else cfg["in"]) if not P.is_pure(r)]
+            if orails:
+                t[other] = [[i, ("f" if i == orails[-1] else v)] for i, v in t[other]]
+            elif cfg["dialog"]:
+                t["intent"], t["act_fault"] = "act", True
+                if cfg["ver"] == "2.x":
+                    t["user"] = ACT_TEXT
+        t[key] = [[i, tbl[i]] for i in sorted(tbl)]
+
+
+REPEAT_RAILS = {
+    "out": [([], [0, 1]), ([0], [0, PURE]), ([], [PURE, 0])],
+    "in": [([0, 1], [0]), ([0, PURE], [0]), ([PURE, 0], [0])],
+}
+
+
+def repeat_cases(rng, tier, side, patterns=None):
+    """Conversations (>= 3 turns, history shared through messages+cache AND through state) in which some turn faults after the
+    side's variable was set and the texts of the side repeat across turns; `side` = "in" | "out" | "both" (same pattern on both)."""
+    cases = []
+    pats = patterns if patterns is not None else REPEAT_PATTERNS
+    sides = ("in", "out") if side == "both" else (side,)
+    shapes = REPEAT_RAILS["out" if side == "both" else side]
+    for ver in ("1.0", "2.x"):
+        for dialog in (False, True):
+            for exc in ((False, True) if tier == "thorough" else (False,)):
+                for carry in (("messages", "state") if ver == "1.0" else ("state",)):
+                    for n, (ins, outs) in enumerate(shapes):
+                        if ver == "2.x" and (any(P.is_pure(r) for r in ins + outs)):
+                            continue
+                        if side == "both":
+                            ins = [0]
+                        if not fits(ver, dialog, len(ins), len(outs)):
+                            continue
+                        for pi, pat in enumerate(pats):
+                            has_pure = any(P.is_pure(r) for r in ins + outs)
+                            marker = any(nm.endswith("m") for nm, _ in pat)
+                            if marker and not has_pure:
+                                continue
+                            if has_pure and not marker and pi >= 2:
+                                continue  # pure-rail shapes run the marker patterns and the first two plain ones
+                            if ver == "2.x" and any(ev.startswith("w") for _, ev in pat):
+                                continue
+                            if tier == "quick" and carry == "state" and pi >= 5 and not has_pure:
+                                continue
+                            cfg = {"ver": ver, "dialog": dialog, "exc": exc, "in": list(ins), "out": list(outs), "carry": carry}
+                            if ver == "2.x" and not dialog:
+                                cfg["usaid"] = "something"
+                            turns = [clean_turn(rng, cfg, k + 1) for k in range(len(pat))]
+                            for sd in sides:
+                                _repeat_side(rng, cfg, turns, sd, pat)
+                            cfg["turns"] = turns
+                            cases.append(fix_pure(cfg))
+    return cases
+
+
+def collapse_texts(rng, case, p_bot=0.5, p_user=0.3, p_rw=0.3):
+    """Make the texts of a generated conversation repeat: a later turn's LLM text / user text / rewrite text is replaced by one
+    that already occurred (as LLM text, user text or rewrite) in an earlier turn."""
+    ts = case["turns"]
+    for k in range(1, len(ts)):
+        t = ts[k]
+        j = rng.randrange(k)
+        if rng.random() < p_bot:
+            pool = [ts[j]["bot"]] + [v[1] for _, v in ts[j].get("vout") or [] if is_rewrite(v)]
+            t["bot"] = rng.choice(pool)
+        if case["ver"] == "1.0" and rng.random() < p_user:
+            pool = [ts[j]["user"]] + [v[1] for _, v in ts[j].get("vin") or [] if is_rewrite(v)]
+            t["user"] = rng.choice(pool)
+        for key, src in (("vin", "user"), ("vout", "bot")):
+            for e in t.get(key) or []:
+                if is_rewrite(e[1]) and rng.random() < p_rw:
+                    e[1] = ["w", ts[j][src]]
+    return fix_pure(case)
+
+
+def purify(rng, case, side, p_marker=0.35):
+    """Colang 1.0: make the last rail of the side a pure-Colang rail (verdict computed by the flow from the text) and let some
+    texts carry its marker."""
+    lst = case["in"] if side == "in" else case["out"]
+    if case["ver"] != "1.0" or not lst or lst.count(lst[-1]) > 1 or case.get("sc"):
+        return case
+    old = lst[-1]
+    lst[-1] = PURE
+    key, tkey = ("vin", "user") if side == "in" else ("vout", "bot")
+    for t in case["turns"]:
+        t[key] = [[(PURE if i == old else i), v] for i, v in t.get(key) or []]
+        if rng.random() < p_marker:
+            t[tkey] = t[tkey] + " " + P.pure_marker(PURE)
+    return fix_pure(case)
+
+
 def sort_cases(cases):
     """Group by configuration so that a worker process builds each LLMRails instance once."""
     return sorted(cases, key=lambda c: json.dumps(P.config_key(c)))
